@@ -455,11 +455,14 @@ Qed.
 Lemma pow2_8 k : 2 ^ (8 * N.of_nat k) = 256 ^ N.of_nat k.
 Proof. rewrite N.pow_mul_r. reflexivity. Qed.
 
+Lemma lo64_mod x : lo64 x = x mod two64.
+Proof. unfold lo64, two64. change 18446744073709551615 with (N.ones 64). apply N.land_ones. Qed.
+
 Lemma asn1_signed_eq b l : bytes_ok (b :: l) -> (length l < 8)%nat ->
   asn1_signed (b :: l) = Some (bigint_of_bytes (b :: l)).
 Proof.
   intros Hok Hlen. rewrite bigint_of_bytes_spec by assumption. rewrite (hd_ge_128 b l Hok).
-  pose proof (be_val_lt _ Hok) as Hu. unfold asn1_signed.
+  pose proof (be_val_lt _ Hok) as Hu. unfold asn1_signed. rewrite !lo64_mod.
   rewrite blen_cons in *. set (n := length l) in *.
   assert (Hbl : blen l = N.of_nat n) by reflexivity. rewrite Hbl in *.
   rewrite (ltb_false 8 (1 + N.of_nat n)) by lia.
@@ -493,7 +496,7 @@ Lemma asn1_unsigned_eq bs n : bytes_ok bs -> asn1_unsigned bs = Some n ->
 Proof.
   intros Hok H. destruct bs as [|b l]; [discriminate|]. cbn [asn1_unsigned] in H.
   destruct ((9 <? blen (b :: l)) || ((blen (b :: l) =? 9) && negb (b =? 0))) eqn:E; [discriminate|].
-  destruct (128 <=? b) eqn:E1; [discriminate|]. injection H as <-.
+  destruct (128 <=? b) eqn:E1; [discriminate|]. injection H as <-. rewrite lo64_mod.
   rewrite bigint_of_bytes_spec by assumption. rewrite E1.
   apply orb_false_iff in E as [E2 E3]. apply N.ltb_ge in E2.
   pose proof (be_val_lt _ Hok) as Hu. inversion Hok as [|? ? Hb Hl]; subst.
@@ -822,7 +825,7 @@ Proof.
     assert (E8 : blen l = 8) by lia.
     rewrite be_val_cons, E8 in S. change (256 ^ 8) with 18446744073709551616 in S.
     assert (b = 0) by lia. subst b. reflexivity. }
-  rewrite Hb9. cbn [orb]. f_equal.
+  rewrite Hb9. cbn [orb]. f_equal. rewrite lo64_mod.
   rewrite N.mod_small by (unfold two64; lia). lia.
 Qed.
 
@@ -1488,12 +1491,11 @@ Qed.
 (* the long-form case: one reserved byte, content shifted right by k, k length bytes written *)
 Lemma l_flush_long res0 c k lenByte :
   (1 <= k)%nat -> blen c < 256 ^ N.of_nat k ->
-  (let res1 := upd (length res0) lenByte ((res0 ++ [0]) ++ c) in
-   let r := res1 ++ repeat 0 k in
-   let res2 := copy_within r (length res0 + 1 + k) (length res0 + 1) in
-   write_len k (S (length res0)) (blen c) res2) = (res0 ++ lenByte :: be_n k (blen c) ++ c, 0).
+  write_len k (S (length res0)) (blen c)
+    (copy_within (upd (length res0) lenByte ((res0 ++ [0]) ++ c) ++ repeat 0 k)
+       (length res0 + 1 + k) (length res0 + 1)) = (res0 ++ lenByte :: be_n k (blen c) ++ c, 0).
 Proof.
-  intros Hk Hc. cbv zeta.
+  intros Hk Hc.
   replace ((res0 ++ [0]) ++ c) with (res0 ++ 0 :: c) by (now rewrite <- app_assoc).
   rewrite upd_app. unfold copy_within.
   set (r := (res0 ++ lenByte :: c) ++ repeat 0 k).
@@ -1530,11 +1532,140 @@ Proof.
     [|destruct (255 <? blen c) eqn:E3; [|destruct (127 <? blen c) eqn:E4]]];
     cbn [Nat.sub Nat.eqb];
     rewrite ?N.ltb_lt, ?N.ltb_ge in *.
-  - replace (length res0 + 1 + 4)%nat with (length res0 + 1 + 4)%nat by reflexivity.
-    rewrite (l_flush_long res0 c 4 132) by (cbn; lia). reflexivity.
+  - rewrite (l_flush_long res0 c 4 132) by (cbn; lia). reflexivity.
   - rewrite (l_flush_long res0 c 3 131) by (cbn; lia). reflexivity.
   - rewrite (l_flush_long res0 c 2 130) by (cbn; lia). reflexivity.
   - rewrite (l_flush_long res0 c 1 129) by (cbn; lia). reflexivity.
   - cbn [write_len]. replace ((res0 ++ [0]) ++ c) with (res0 ++ 0 :: c) by (now rewrite <- app_assoc).
     rewrite upd_app. reflexivity.
 Qed.
+
+Lemma l_asn1_spec tag f oc res :
+  (forall r0, f r0 = option_map (app r0) oc) ->
+  l_asn1 tag f res = option_map (app res) (h_asn1 tag oc).
+Proof.
+  intro Hf. unfold l_asn1, h_asn1. destruct (tag mod 32 =? 31); [reflexivity|].
+  rewrite Hf. destruct oc as [c|]; [|reflexivity]. cbn [option_map].
+  replace (length (res ++ [tag])) with (length (res ++ [tag])) by reflexivity.
+  rewrite (l_flush_asn1 (res ++ [tag]) c).
+  destruct (asn1_len_octets (blen c)) as [p|]; [|reflexivity]. cbn [option_map].
+  rewrite <- app_assoc. reflexivity.
+Qed.
+
+Lemma l_add_spec oc r0 : l_add oc r0 = option_map (app r0) oc.
+Proof. destruct oc; reflexivity. Qed.
+
+Definition P_lw (x : w) : Prop := forall res, l_w x res = option_map (app res) (build_w x).
+
+Lemma l_build_spec ws : Forall P_lw ws -> forall res, l_build ws res = option_map (app res) (build ws).
+Proof.
+  induction 1 as [|x t Hx Ht IH]; intro res.
+  - cbn. now rewrite app_nil_r.
+  - cbn [l_build build]. rewrite (Hx res). destruct (build_w x) as [bx|]; [|reflexivity]. cbn [option_map].
+    rewrite IH. destruct (build t) as [bt|]; [|reflexivity]. cbn [option_map]. now rewrite app_assoc.
+Qed.
+
+Lemma w_nested_ind (P : w -> Prop) :
+  (forall x, match x with WLen _ _ | WAsn1 _ _ => False | _ => True end -> P x) ->
+  (forall k body, Forall P body -> P (WLen k body)) ->
+  (forall tag body, Forall P body -> P (WAsn1 tag body)) ->
+  forall x, P x.
+Proof.
+  intros Hbase Hlen Hasn1. fix IH 1. intro x.
+  destruct x; try (apply Hbase; exact I).
+  - apply Hlen. revert body. fix IHl 1. intros [|y' t]; [constructor|].
+    constructor; [apply IH|apply IHl].
+  - apply Hasn1. revert body. fix IHl 1. intros [|y' t]; [constructor|].
+    constructor; [apply IH|apply IHl].
+Qed.
+
+Lemma P_lw_all x : P_lw x.
+Proof.
+  induction x using w_nested_ind.
+  - destruct x; try contradiction; intro res; cbn [l_w build_w option_map];
+      try reflexivity; try (apply l_asn1_spec; intro r0; apply l_add_spec).
+    destruct (gentime_year_ok t); [|reflexivity]. apply l_asn1_spec; intro r0; apply l_add_spec.
+  - intro res.
+    change (l_w (WLen k body) res) with
+      (match l_build body (res ++ repeat 0 k) with
+       | Some r2 => l_flush false k (length res) r2 | None => None end).
+    change (build_w (WLen k body)) with (h_len k (build body)).
+    rewrite (l_build_spec body H). destruct (build body) as [c|]; [|reflexivity]. cbn [option_map].
+    apply l_flush_len.
+  - intro res.
+    change (l_w (WAsn1 tag body) res) with (l_asn1 tag (l_build body) res).
+    change (build_w (WAsn1 tag body)) with (h_asn1 tag (build body)).
+    apply l_asn1_spec. intro r0. apply (l_build_spec body H).
+Qed.
+
+(* the builder that mirrors add / addLengthPrefixed / flushChild on the shared buffer
+   produces exactly  buffer ++ specification-level encoding  (and fails exactly when it fails) *)
+Theorem l_build_refines : forall ws res, l_build ws res = option_map (app res) (build ws).
+Proof.
+  intros ws res. apply l_build_spec. apply Forall_forall. intros x _. apply P_lw_all.
+Qed.
+
+(* ------------------------------------------------------------------ corollaries used as property theorems *)
+(* length prefixes: the prefix holds exactly the length of what the continuation wrote,
+   and the Builder fails exactly when that does not fit *)
+Lemma length_prefix_correct k body :
+  build_w (WLen k body) =
+  match build body with
+  | Some c => if blen c <? 256 ^ N.of_nat k then Some (be_n k (blen c) ++ c) else None
+  | None => None
+  end.
+Proof. reflexivity. Qed.
+
+Lemma asn1_header_correct tag body :
+  build_w (WAsn1 tag body) =
+  if tag mod 32 =? 31 then None else
+  match build body with
+  | Some c => match asn1_len_octets (blen c) with Some p => Some (tag :: p ++ c) | None => None end
+  | None => None
+  end.
+Proof. reflexivity. Qed.
+
+(* optional readers, tag present: they consume exactly the element *)
+Lemma optional_present_asn1 tag c el tail :
+  h_asn1 tag (Some c) = Some el -> blen c < 4294967290 ->
+  rd (ROptAsn1 tag) (el ++ tail) = Some (VOpt true (VBytes c), tail) /\
+  rd (RSkipOpt tag) (el ++ tail) = Some (VUnit, tail).
+Proof.
+  intros H L. cbn [rd]. rewrite (peek_built tag _ el tail H), (read_asn1_tag_built tag c el tail H L). auto.
+Qed.
+
+Lemma optional_present_bool b d tail :
+  rd (ROptBool d) ([1; 1; if b : bool then 255 else 0] ++ tail) = Some (VOpt true (VBool b), tail).
+Proof.
+  assert (H : h_asn1 1 (Some [if b then 255 else 0]) = Some [1; 1; if b then 255 else 0]) by reflexivity.
+  cbn [rd]. rewrite (peek_built 1 _ _ tail H), (read_bool_built b _ tail H). reflexivity.
+Qed.
+
+(* the defect repaired by 46d85f5: the old reader consumed the BOOLEAN through
+   ReadOptionalASN1 and then parsed the NEXT element as the BOOLEAN *)
+Definition old_read_optional_bool (d : bool) (s : bytes) : option (bool * bytes) :=
+  if peek_tag 1 s then
+    match read_asn1_tag 1 s with
+    | Some (_, s') => read_bool s'
+    | None => None
+    end
+  else Some (d, s).
+Lemma old_optional_bool_refuted :
+  old_read_optional_bool false [1; 1; 255; 5; 0] = None /\
+  old_read_optional_bool false [1; 1; 255; 1; 1; 0] = Some (false, []) /\
+  rd (ROptBool false) [1; 1; 255; 5; 0] = Some (VOpt true (VBool true), [5; 0]).
+Proof. repeat split; vm_compute; reflexivity. Qed.
+
+(* non-vacuity of the main theorem: a program with nesting, long-form lengths, every
+   optional reader present and absent, and trailing bytes *)
+Definition demo_ws : list w :=
+  [WAsn1 48 [WInt64 (-129); WAsn1 160 [WUint64 255]; WBool true; WOctets (nrep 7 200)];
+   WLen 2 [WOid [1; 2; 840; 113549]%Z; WNull]; WBitString [1; 2]; WU24 66000].
+Definition demo_rs : list r :=
+  [RPeek 48;
+   RAsn1 48 [RInt true 16; ROptOctets 161; ROptInt 160 false 8 5%Z; ROptBool false; ROptBool true; ROctets; ROptAsn1 4];
+   RLen 2 [ROid; RSkipOpt 6; RNull]; ROptBigInt 160 9%Z; RBitStringBytes; RU24; RPeek 9].
+Lemma demo_nonvacuous :
+  exists bs vs, build demo_ws = Some bs /\ blen bs < LIM /\ (200 < blen bs) /\
+                expects demo_rs demo_ws [9; 9] = Some vs /\ length vs = 7%nat.
+Proof. eexists _, _. repeat split; vm_compute; reflexivity. Qed.
